@@ -216,3 +216,18 @@ func MixByte(k expr.Key, addr *big.Int, seed uint64) byte {
 	h ^= h >> 32
 	return byte(h)
 }
+
+// FoldConst evaluates a closed expression (no register or memory loads) to a
+// uint64 (low 64 bits); ok=false if it contains loads.
+func FoldConst(e expr.Expr) (uint64, bool) {
+	closed := true
+	env := &Env{
+		Reg: func(expr.Key) *big.Int { closed = false; return new(big.Int) },
+		Mem: func(expr.Key, *big.Int) byte { closed = false; return 0 },
+	}
+	v := Eval(e, env)
+	if !closed {
+		return 0, false
+	}
+	return new(big.Int).And(v, new(big.Int).SetUint64(^uint64(0))).Uint64(), true
+}
